@@ -34,8 +34,9 @@ open SoyVerif SoyVerif.Model
 
 /-! ## Runes -/
 
+/-- runes are plain `Int`s (written `Int` below so that `omega` sees through) -/
 abbrev Rune := Int
-def eof : Rune := -1
+def eof : Int := -1
 def runeError : Nat := 0xFFFD
 
 def byteAt (a : Array UInt8) (i : Nat) : Nat := (a.getD i 0).toNat
@@ -110,27 +111,27 @@ theorem decodeRune_width (a : Array UInt8) (i : Nat) (h : i < a.size) :
 def inRanges (t : Array (Nat × Nat × Nat)) (r : Nat) : Bool :=
   t.any fun e => e.1 ≤ r && r ≤ e.2.1 && (r - e.1) % e.2.2 == 0
 
-def isLetterU (r : Rune) : Bool := decide (0 ≤ r) && inRanges Gen.letterRanges r.toNat
-def isDigitU (r : Rune) : Bool := decide (0 ≤ r) && inRanges Gen.digitRanges r.toNat
-def isSpaceU (r : Rune) : Bool := decide (0 ≤ r) && inRanges Gen.spaceRanges r.toNat
+def isLetterU (r : Int) : Bool := decide (0 ≤ r) && inRanges Gen.letterRanges r.toNat
+def isDigitU (r : Int) : Bool := decide (0 ≤ r) && inRanges Gen.digitRanges r.toNat
+def isSpaceU (r : Int) : Bool := decide (0 ≤ r) && inRanges Gen.spaceRanges r.toNat
 
 /-! ## Helpers of lexer.go -/
 
-def isAlphaNumeric (r : Rune) : Bool := r == 95 || isLetterU r || isDigitU r
-def isSpace (r : Rune) : Bool := r == 32 || r == 9
-def isEndOfLine (r : Rune) : Bool := r == 13 || r == 10
-def isSpaceEOL (r : Rune) : Bool := isSpace r || isEndOfLine r
-def isLetterOrUnderscore (r : Rune) : Bool := (97 ≤ r && r ≤ 122) || (65 ≤ r && r ≤ 90) || r == 95
-def isDigit (r : Rune) : Bool := 48 ≤ r && r ≤ 57
+def isAlphaNumeric (r : Int) : Bool := r == 95 || isLetterU r || isDigitU r
+def isSpace (r : Int) : Bool := r == 32 || r == 9
+def isEndOfLine (r : Int) : Bool := r == 13 || r == 10
+def isSpaceEOL (r : Int) : Bool := isSpace r || isEndOfLine r
+def isLetterOrUnderscore (r : Int) : Bool := (97 ≤ r && r ≤ 122) || (65 ≤ r && r ≤ 90) || r == 95
+def isDigit (r : Int) : Bool := 48 ≤ r && r ≤ 57
 
 theorem isAlphaNumeric_eof : isAlphaNumeric eof = false := by
   simp [isAlphaNumeric, isLetterU, isDigitU, eof]
 
 /-- `strings.IndexRune(valid, r) >= 0` for an ASCII-only `valid`: an invalid rune
     (negative: eof) is never found. -/
-def indexRune (valid : List Rune) (r : Rune) : Bool := decide (0 ≤ r) && valid.contains r
+def indexRune (valid : List Int) (r : Int) : Bool := decide (0 ≤ r) && valid.contains r
 
-theorem indexRune_eof (valid : List Rune) : indexRune valid eof = false := by
+theorem indexRune_eof (valid : List Int) : indexRune valid eof = false := by
   simp [indexRune, eof]
 
 /-- `for _, ch := range str` of allSpaceWithNewline over the bytes `a`, from index `i`. -/
@@ -191,7 +192,7 @@ def len (l : Lexer) : Int := l.input.size
 def rem (l : Lexer) : Nat := (l.len - l.pos).toNat
 
 /-- `l.next()` -/
-def next (l : Lexer) : Option (Rune × Lexer) :=
+def next (l : Lexer) : Option (Int × Lexer) :=
   if l.pos ≥ l.len then some (eof, { l with width := 0 })
   else if l.pos < 0 then none
   else
@@ -202,7 +203,7 @@ def next (l : Lexer) : Option (Rune × Lexer) :=
 def backup (l : Lexer) : Lexer := { l with pos := l.pos - l.width }
 
 /-- `l.peek()` -/
-def peek (l : Lexer) : Option (Rune × Lexer) := do
+def peek (l : Lexer) : Option (Int × Lexer) := do
   let (r, l) ← l.next
   pure (r, l.backup)
 
@@ -227,7 +228,7 @@ end Lexer
 inductive St where
   | text | leftDelim | rightDelim | rightDelimEnd | beginTag | insideTag
   | ident | number | headerParam | css | literal
-  | str (quote : Rune)
+  | str (quote : Int)
   deriving DecidableEq, Repr
 
 /-- result of a state function: `none` = PANIC, `some (none, l)` = returned `nil`,
@@ -241,7 +242,7 @@ def errorf (l : Lexer) : Res :=
 
 /-! ### Facts about `next` needed for the termination of the scanning loops -/
 
-theorem next_spec {l l' : Lexer} {r : Rune} (h : l.next = some (r, l')) :
+theorem next_spec {l l' : Lexer} {r : Int} (h : l.next = some (r, l')) :
     l'.input = l.input ∧
     ((l.len ≤ l.pos ∧ r = eof ∧ l'.pos = l.pos ∧ l'.width = 0) ∨
      (0 ≤ l.pos ∧ l.pos < l.len ∧ 0 ≤ r ∧ 1 ≤ l'.width ∧ l'.pos = l.pos + l'.width ∧ l'.pos ≤ l.len)) := by
@@ -260,35 +261,35 @@ theorem next_spec {l l' : Lexer} {r : Rune} (h : l.next = some (r, l')) :
       have hw := decodeRune_width l.input l.pos.toNat hlt
       refine ⟨rfl, Or.inr ⟨by omega, ?_, Int.natCast_nonneg _, ?_, rfl, ?_⟩⟩ <;> (simp only [Lexer.len]; omega)
 
-theorem next_input {l l' : Lexer} {r : Rune} (h : l.next = some (r, l')) : l'.input = l.input :=
+theorem next_input {l l' : Lexer} {r : Int} (h : l.next = some (r, l')) : l'.input = l.input :=
   (next_spec h).1
 
-theorem next_len {l l' : Lexer} {r : Rune} (h : l.next = some (r, l')) : l'.len = l.len := by
+theorem next_len {l l' : Lexer} {r : Int} (h : l.next = some (r, l')) : l'.len = l.len := by
   simp [Lexer.len, next_input h]
 
 /-- a `next` that did not return eof moved forward -/
-theorem next_rem_lt {l l' : Lexer} {r : Rune} (h : l.next = some (r, l')) (hr : r ≠ eof) :
+theorem next_rem_lt {l l' : Lexer} {r : Int} (h : l.next = some (r, l')) (hr : r ≠ eof) :
     l'.rem < l.rem := by
   have hl := next_len h
   rcases (next_spec h).2 with ⟨_, he, _⟩ | ⟨h0, h1, _, hw, hp, _⟩
   · exact absurd he hr
   · simp only [Lexer.rem, hl]; omega
 
-theorem next_rem_le {l l' : Lexer} {r : Rune} (h : l.next = some (r, l')) : l'.rem ≤ l.rem := by
+theorem next_rem_le {l l' : Lexer} {r : Int} (h : l.next = some (r, l')) : l'.rem ≤ l.rem := by
   have hl := next_len h
   rcases (next_spec h).2 with ⟨_, _, hp, _⟩ | ⟨h0, h1, _, hw, hp, _⟩
   · simp only [Lexer.rem, hl]; omega
   · simp only [Lexer.rem, hl]; omega
 
 /-- `next` followed by `backup` restores the position -/
-theorem next_backup_pos {l l' : Lexer} {r : Rune} (h : l.next = some (r, l')) :
+theorem next_backup_pos {l l' : Lexer} {r : Int} (h : l.next = some (r, l')) :
     l'.backup.pos = l.pos ∧ l'.backup.input = l.input := by
   have hi := next_input h
   refine ⟨?_, hi⟩
   simp only [Lexer.backup]
   rcases (next_spec h).2 with ⟨_, _, hp, hw⟩ | ⟨_, _, _, _, hp, _⟩ <;> omega
 
-theorem next_backup_rem {l l' : Lexer} {r : Rune} (h : l.next = some (r, l')) :
+theorem next_backup_rem {l l' : Lexer} {r : Int} (h : l.next = some (r, l')) :
     l'.backup.rem = l.rem := by
   have := next_backup_pos h
   simp [Lexer.rem, Lexer.len, this.1, this.2]
@@ -298,7 +299,7 @@ theorem next_backup_rem {l l' : Lexer} {r : Rune} (h : l.next = some (r, l')) :
 /-- `for p(l.next()) {}` — consumes runes while `p` holds; returns the first rune on which
     `p` fails together with the lexer after that `next` (not backed up).  `p eof = false`
     is what makes every such loop of lexer.go stop. -/
-def scanWhile (p : Rune → Bool) (hp : p eof = false) (l : Lexer) : Option (Rune × Lexer) :=
+def scanWhile (p : Int → Bool) (hp : p eof = false) (l : Lexer) : Option (Int × Lexer) :=
   match h : l.next with
   | none => none
   | some (r, l') => if hr : p r = true then scanWhile p hp l' else some (r, l')
@@ -307,12 +308,12 @@ decreasing_by
   exact next_rem_lt h (by intro e; rw [e, hp] at hr; exact absurd hr (by simp))
 
 /-- `l.accept(valid)` -/
-def accept (l : Lexer) (valid : List Rune) : Option (Bool × Lexer) := do
+def accept (l : Lexer) (valid : List Int) : Option (Bool × Lexer) := do
   let (r, l) ← l.next
   if indexRune valid r then pure (true, l) else pure (false, l.backup)
 
 /-- `l.acceptRun(valid)` -/
-def acceptRun (l : Lexer) (valid : List Rune) : Option (Bool × Lexer) := do
+def acceptRun (l : Lexer) (valid : List Int) : Option (Bool × Lexer) := do
   let pos := l.pos
   let (_, l) ← scanWhile (indexRune valid) (indexRune_eof valid) l
   let l := l.backup
@@ -365,7 +366,7 @@ theorem emit_spec {l l' : Lexer} {t : ItemType} (h : l.emit t = some l') :
       · simp only [Lexer.len]; omega
       · simp only [Lexer.len] at *; omega
 
-theorem scanWhile_spec (p : Rune → Bool) (hp : p eof = false) (l : Lexer) {r : Rune} {l' : Lexer}
+theorem scanWhile_spec (p : Int → Bool) (hp : p eof = false) (l : Lexer) {r : Int} {l' : Lexer}
     (h : scanWhile p hp l = some (r, l')) :
     l'.input = l.input ∧ l.pos ≤ l'.pos ∧ (l.pos ≤ l.len → l'.pos ≤ l.len) ∧ p r = false
       ∧ l'.pos - l'.width ≥ l.pos ∧ 0 ≤ l'.width := by
@@ -458,9 +459,9 @@ decreasing_by
   · exact next_rem_lt h (by assumption)
 
 /-- loop condition of "skip all spaces" in lexSoyDocParam: `!(r == eof || !isSpace(r))` -/
-def sdpSkip (r : Rune) : Bool := !(r == eof || !isSpace r)
+def sdpSkip (r : Int) : Bool := !(r == eof || !isSpace r)
 /-- loop condition of "extract the param" in lexSoyDocParam: `!(isSpaceEOL(r) || r == eof)` -/
-def sdpName (r : Rune) : Bool := !(isSpaceEOL r || r == eof)
+def sdpName (r : Int) : Bool := !(isSpaceEOL r || r == eof)
 
 /-- the second half of `lexSoyDocParam`: skip spaces, extract the param name -/
 def lexSoyDocParamName (l : Lexer) : Option Lexer :=
@@ -601,7 +602,7 @@ theorem hasPrefixAt_true {s : Array UInt8} {pos : Int} {pre : Bytes}
 def atParam : Bytes := [64, 112, 97, 114, 97, 109] -- "@param"
 
 
-theorem isEndOfLine_isSpaceEOL {r : Rune} (h : isEndOfLine r = true) : isSpaceEOL r = true := by
+theorem isEndOfLine_isSpaceEOL {r : Int} (h : isEndOfLine r = true) : isSpaceEOL r = true := by
   simp [isSpaceEOL, h]
 
 /-- the `for` loop of `lexSoyDoc`; `star`, `startOfLine` are its loop variables.
@@ -692,7 +693,7 @@ def lexSoyDoc (l : Lexer) : Res :=
   | some l1 => lexSoyDocLoop l1 false true
 
 /-- the `for` loop of `lexText`; `lastChar` is the previous value of `r` (0 at the start) -/
-def lexTextLoop (l : Lexer) (lastChar : Rune) : Res :=
+def lexTextLoop (l : Lexer) (lastChar : Int) : Res :=
   match h : l.next with
   | none => none
   | some (r, l1) =>
@@ -704,7 +705,7 @@ def lexTextLoop (l : Lexer) (lastChar : Rune) : Res :=
         if r2 = 47 then
           -- '//' only begins a comment if the previous character is whitespace,
           -- or if we are the start of input.
-          let lastCharEmitted : Rune :=
+          let lastCharEmitted : Int :=
             if lastChar = 0 ∧ l2.lastEmit.val ≠ [] then ((l2.lastEmit.val.getLast?.getD 0).toNat : Int)
             else lastChar
           if lastCharEmitted = 0 ∨ isSpaceEOL lastCharEmitted = true then
@@ -798,59 +799,65 @@ def emitInside (l : Lexer) (t : ItemType) : Res := do
   let l ← l.emit t
   pure (some .insideTag, l)
 
-def symbolChars : List Rune := [42, 47, 37, 43, 45, 61, 33, 60, 62, 124, 38, 63, 58] -- "*/%+-=!<>|&?:"
+def symbolChars : List Int := [42, 47, 37, 43, 45, 61, 33, 60, 62, 124, 38, 63, 58] -- "*/%+-=!<>|&?:"
+
+/-- lexInsideTag, `case r == '>', r == '!', r == '<', r == '=' && l.peek() == '='`:
+    1 or 2 character symbols -/
+def lexSymbol (l : Lexer) : Res := do
+  let (_, l) ← accept l symbolChars
+  let sym ← sliceOf l.input l.start l.pos
+  match Gen.symbols.lookup sym with
+  | none => errorf l
+  | some t => emitInside l t
+
+/-- lexInsideTag, the cases after the symbols (`case r == '"', r == '\''` … `default`) -/
+def lexInsideTagRest (r : Int) (l : Lexer) : Res :=
+  if r = 34 ∨ r = 39 then pure (some (.str r), l)
+  else if r = 61 then emitInside l .tEquals
+  else if r = eof then errorf l
+  else if r = 124 then emitInside l .tPipe
+  else if isLetterOrUnderscore r then pure (some .ident, l.backup)
+  else if r = 44 then emitInside l .tComma
+  else if r = 64 then pure (some .headerParam, l)
+  else errorf l
+
+/-- lexInsideTag, the cases from `case r == '$', r == '.'` on (`r` is the rune read, `l` the
+    lexer after evaluating the case conditions before) -/
+def lexInsideTagMid (r : Int) (l : Lexer) : Res :=
+  if r = 36 ∨ r = 46 then pure (some .ident, l.backup)
+  else if r = 91 then emitInside l .tLeftBracket
+  else if r = 93 then emitInside l .tRightBracket
+  else if r = 63 then do -- used by data refs and arithmetic
+    let (r2, l) ← l.next
+    if r2 = 46 then pure (some .ident, l.addPos (-2))
+    else if r2 = 91 then emitInside l .tQuestionKey
+    else if r2 = 58 then emitInside l .tElvis
+    else emitInside l.backup .tTernIf
+  else if r = 45 then lexNegative l
+  else if r = 125 then pure (some .rightDelim, l)
+  else if 48 ≤ r ∧ r ≤ 57 then pure (some .number, l.backup)
+  else if r = 42 ∨ r = 47 ∨ r = 37 ∨ r = 43 ∨ r = 58 ∨ r = 40 ∨ r = 41 then
+    -- the single-character symbols: arithmeticItemsBySymbol[string(r)] (zero value if absent)
+    emitInside l ((Gen.symbols.lookup [r.toNat.toUInt8]).getD .tInvalid)
+  else if r = 62 ∨ r = 33 ∨ r = 60 then lexSymbol l
+  else if r = 61 then do
+    -- `r == '=' && l.peek() == '='`
+    let (p, l) ← l.peek
+    if p = 61 then lexSymbol l else lexInsideTagRest r l
+  else lexInsideTagRest r l
 
 /-- `lexInsideTag` -/
 def lexInsideTag (l : Lexer) : Res := do
   let (r, l) ← l.next
   if isSpaceEOL r then pure (some .insideTag, l.ignore)
-  else do
+  else if r = 47 then do
     -- case r == '/' && l.peek() == '}'
-    let (c, l) ← (if r = 47 then do
-        let (p, l) ← l.peek
-        pure (decide (p = 125), l)
-      else pure (false, l) : Option (Bool × Lexer))
-    if c then pure (some .rightDelimEnd, l)
-    else if r = 36 ∨ r = 46 then pure (some .ident, l.backup)
-    else if r = 91 then emitInside l .tLeftBracket
-    else if r = 93 then emitInside l .tRightBracket
-    else if r = 63 then do -- used by data refs and arithmetic
-      let (r2, l) ← l.next
-      if r2 = 46 then pure (some .ident, l.addPos (-2))
-      else if r2 = 91 then emitInside l .tQuestionKey
-      else if r2 = 58 then emitInside l .tElvis
-      else emitInside l.backup .tTernIf
-    else if r = 45 then lexNegative l
-    else if r = 125 then pure (some .rightDelim, l)
-    else if 48 ≤ r ∧ r ≤ 57 then pure (some .number, l.backup)
-    else if r = 42 ∨ r = 47 ∨ r = 37 ∨ r = 43 ∨ r = 58 ∨ r = 40 ∨ r = 41 then
-      -- the single-character symbols: arithmeticItemsBySymbol[string(r)] (zero value if absent)
-      emitInside l ((Gen.symbols.lookup [r.toNat.toUInt8]).getD .tInvalid)
-    else do
-      -- case r == '>', r == '!', r == '<', r == '=' && l.peek() == '='
-      let (c, l) ← (if r = 62 ∨ r = 33 ∨ r = 60 then pure (true, l)
-        else if r = 61 then do
-          let (p, l) ← l.peek
-          pure (decide (p = 61), l)
-        else pure (false, l) : Option (Bool × Lexer))
-      if c then do
-        -- 1 or 2 character symbols
-        let (_, l) ← accept l symbolChars
-        let sym ← sliceOf l.input l.start l.pos
-        match Gen.symbols.lookup sym with
-        | none => errorf l
-        | some t => emitInside l t
-      else if r = 34 ∨ r = 39 then pure (some (.str r), l)
-      else if r = 61 then emitInside l .tEquals
-      else if r = eof then errorf l
-      else if r = 124 then emitInside l .tPipe
-      else if isLetterOrUnderscore r then pure (some .ident, l.backup)
-      else if r = 44 then emitInside l .tComma
-      else if r = 64 then pure (some .headerParam, l)
-      else errorf l
+    let (p, l) ← l.peek
+    if p = 125 then pure (some .rightDelimEnd, l) else lexInsideTagMid r l
+  else lexInsideTagMid r l
 
 /-- the state function returned by `stringLexer(quoteChar)`; the quote has been read -/
-def lexString (quote : Rune) (l : Lexer) : Res :=
+def lexString (quote : Int) (l : Lexer) : Res :=
   match h : l.next with
   | none => none
   | some (r, l1) =>
@@ -910,7 +917,7 @@ def lexIdent (l : Lexer) : Res := do
 /-- the type scan of `lexHeaderParam`:
     `for ch := l.next(); ch != '=' && ch != '}'; ch = l.next() { if ch == eof {error}; if !isSpace(ch) { lastNonSpace = l.pos } }`.
     Returns the rune that ended the loop (eof = the error exit), the lexer and `lastNonSpace`. -/
-def headerTypeLoop (l : Lexer) (lastNonSpace : Int) : Option (Rune × Lexer × Int) :=
+def headerTypeLoop (l : Lexer) (lastNonSpace : Int) : Option (Int × Lexer × Int) :=
   match h : l.next with
   | none => none
   | some (ch, l1) =>
@@ -951,7 +958,7 @@ def lexHeaderParam (l : Lexer) : Res := do
         pure (some .insideTag, l)
 
 /-- loop condition of the body scan of `lexCss` (`ch != '}'`, leaving on eof with an error) -/
-def cssBody (ch : Rune) : Bool := !(ch == 125) && !(ch == eof)
+def cssBody (ch : Int) : Bool := !(ch == 125) && !(ch == eof)
 
 /-- `lexCss`: itemCss has already been emitted -/
 def lexCss (l : Lexer) : Res := do
@@ -995,8 +1002,8 @@ def lexLiteral (l : Lexer) : Res := do
         let l ← (l.addPos delimLen).emit .tRightDelim
         pure (some .text, l)
 
-def decDigits : List Rune := [48, 49, 50, 51, 52, 53, 54, 55, 56, 57]
-def hexDigits : List Rune := [48, 49, 50, 51, 52, 53, 54, 55, 56, 57, 65, 66, 67, 68, 69, 70]
+def decDigits : List Int := [48, 49, 50, 51, 52, 53, 54, 55, 56, 57]
+def hexDigits : List Int := [48, 49, 50, 51, 52, 53, 54, 55, 56, 57, 65, 66, 67, 68, 69, 70]
 
 /-- the end of `scanNumber`: next thing must not be alphanumeric -/
 def scanNumberEnd (l : Lexer) (typ : ItemType) : Option (ItemType × Bool × Lexer) := do
